@@ -1,0 +1,15 @@
+//go:build verif
+
+package k8s
+
+import "k8s.io/client-go/tools/cache"
+
+// VerifIndexer returns the informer's indexer so a harness can drive the store directly.
+func (p *Provider) VerifIndexer() cache.Indexer {
+	return p.podsInf.GetIndexer()
+}
+
+// VerifHandler returns the cache invalidation handler registered with the informer.
+func (p *Provider) VerifHandler() cache.ResourceEventHandler {
+	return cacheInvalidationHandler{p: p}
+}
